@@ -175,6 +175,12 @@ func (s *Sim) mutate(t *vt.T, sizes func(string) int) {
 			}
 			s.lastMtime[name] = now
 			os.Chtimes(p, now, now)
+			if v := s.lastVersion(name); v != nil {
+				// a touched file counts as changed: it is hashed and sent again
+				s.mu.Lock()
+				s.retransAllowed[name+"|"+v.hash] = true
+				s.mu.Unlock()
+			}
 			t.Note("@%s touch %s", s.clock(), name)
 			t.Class("file-touched")
 			s.lastPerturb = time.Now()
@@ -483,6 +489,218 @@ func TestC08Sim(t *testing.T) {
 		s.checkEconomy("C08")
 		if !ok {
 			s.viol("C08", "part-abandoned", "after the failures stopped, not every part was sent: %s", s.stuckReport())
+		}
+	})
+}
+
+// ---------------------------------------------------------------------------
+// C07: sender crash at an action boundary
+
+func (s *Sim) checkRestartEconomy() {
+	for _, wp := range s.wire {
+		if s.retransAllowed[wp.name+"|"+wp.hash] {
+			continue
+		}
+		k := wp.name + "|" + wp.hash
+		if l := s.listedAt[wp.gen]; l != nil {
+			for _, r := range l[k] {
+				if r.b < wp.end && wp.beg < r.e {
+					s.viol("C07", "resent-range-listed-as-held", "after its restart (generation %d) the sender transmitted [%d,%d) of %s#%.6s although the receiver had listed [%d,%d) of that version as held",
+						wp.gen, wp.beg, wp.end, wp.name, wp.hash, r.b, r.e)
+					return
+				}
+			}
+		}
+		if h := s.heldAt[wp.gen]; h != nil && h[k] {
+			s.viol("C07", "resent-delivered-file", "after its restart (generation %d) the sender transmitted [%d,%d) of %s#%.6s although that version had been delivered before the restart",
+				wp.gen, wp.beg, wp.end, wp.name, wp.hash)
+			return
+		}
+	}
+	// sent log: one record per confirmed version, two only around a crash
+	cnt := map[string]int{}
+	for _, r := range s.sentRecs {
+		cnt[r]++
+	}
+	for k, n := range cnt {
+		if n > 1+s.restartsS && !s.retransAllowed[k] {
+			s.viol("C07", "sent-log-repeats", "%s has %d records in the sent log (sender crashes: %d)", k, n, s.restartsS)
+		}
+	}
+}
+
+func TestC07Sim(t *testing.T) {
+	vt.CheckBubble(t, "C07", func(t *vt.T) {
+		p := SimProfile{Prop: "C07", Faults: t.Weighted("faults", 2, 1) == 1, PollFaults: false, Mutations: t.Weighted("staleCache", 2, 1) == 1,
+			MaxSteps: 50, MaxFiles: 6, AllowDelete: true}
+		conf := genSimConf(t, p)
+		s := NewSim(t, p.Prop, conf)
+		defer s.Close()
+		nf := t.IntRange("nFiles", 1, p.MaxFiles)
+		sizes := func(label string) int {
+			c, pl := int(conf.ChunkSize), int(conf.PayloadSize)
+			opts := []int{1, c, c + 1, 2 * c, pl + 1, 2*pl + 3, 4 * pl}
+			return opts[t.Pick(label, len(opts))]
+		}
+		for i := 0; i < nf; i++ {
+			s.WriteSource(fmt.Sprintf("g%d/f%d.dat", t.Pick("group", conf.Groups), i), sizes("size"), time.Duration(10+nf-i)*time.Minute)
+		}
+		s.crashAt = t.IntRange("crashAtAction", 1, 160)
+		s.StartSender()
+		crashes := 0
+		steps := t.IntRange("nSteps", 10, 120)
+		for i := 0; i < steps; i++ {
+			pend := s.Pending()
+			if s.needRestart {
+				lab := s.crashedAt
+				s.CrashSender()
+				crashes++
+				t.Note("   (crash at action %d: %s)", s.actions, lab)
+				t.Class("crash-before:" + strings.SplitN(lab, " ", 2)[0])
+				// between transmission and confirmation?
+				if len(s.wire) > 0 && !s.allDone() {
+					t.NonTrivial()
+				}
+				if p.Mutations && t.Bool("mutateWhileDown") {
+					s.mutate(t, sizes)
+					t.Class("cache-stale-at-restart")
+				}
+				if t.Weighted("crashAgain", 3, 1) == 1 {
+					s.crashAt = s.actions + t.IntRange("nextCrashIn", 1, 30)
+					t.Class("second-crash")
+				} else {
+					s.crashAt = 0
+				}
+				s.StartSender()
+				continue
+			}
+			if len(pend) > 0 && t.Weighted("serve", 1, 5) == 1 {
+				r := pend[t.Pick("which", len(pend))]
+				s.Serve(r, s.drawFault(t, r, p))
+			} else {
+				time.Sleep(simWaits[t.Pick("wait", len(simWaits))])
+			}
+			s.observe()
+		}
+		s.crashAt = 0
+		if s.needRestart {
+			s.CrashSender()
+			s.StartSender()
+		}
+		ok := s.Quiesce(5 * time.Minute)
+		s.observe()
+		simNonTrivial(s, t)
+		if crashes == 0 {
+			t.Class("no-crash-reached")
+		}
+		if !ok {
+			s.viol("C07", "not-completed-after-sender-crash", "after the sender crash(es) and a quiet period not everything is delivered and confirmed: %s", s.stuckReport())
+		}
+		s.checkRestartEconomy()
+	})
+}
+
+// ---------------------------------------------------------------------------
+// C16: stops
+
+func TestC16Sim(t *testing.T) {
+	vt.CheckBubble(t, "C16", func(t *vt.T) {
+		p := SimProfile{Prop: "C16", Faults: t.Weighted("faults", 2, 1) == 1, PollFaults: true, MaxSteps: 60, MaxFiles: 8, AllowDelete: true}
+		conf := genSimConf(t, p)
+		s := NewSim(t, p.Prop, conf)
+		defer s.Close()
+		nf := t.IntRange("nFiles", 1, p.MaxFiles)
+		sizes := func(label string) int {
+			c, pl := int(conf.ChunkSize), int(conf.PayloadSize)
+			opts := []int{1, c, c + 1, 2 * c, pl + 1, 2*pl + 3, 5 * pl}
+			return opts[t.Pick(label, len(opts))]
+		}
+		for i := 0; i < nf; i++ {
+			s.WriteSource(fmt.Sprintf("g%d/f%d.dat", t.Pick("group", conf.Groups), i), sizes("size"), time.Duration(10+nf-i)*time.Minute)
+		}
+		graceful := t.Weighted("graceful", 1, 2) == 1
+		oneShot := t.Weighted("oneShot", 3, 1) == 1
+		s.StartSender()
+		if !oneShot {
+			steps := t.IntRange("stepsBeforeStop", 0, p.MaxSteps)
+			for i := 0; i < steps; i++ {
+				pend := s.Pending()
+				if len(pend) > 0 && t.Weighted("serve", 1, 5) == 1 {
+					r := pend[t.Pick("which", len(pend))]
+					s.Serve(r, s.drawFault(t, r, p))
+				} else {
+					time.Sleep(simWaits[t.Pick("wait", len(simWaits))])
+				}
+				s.observe()
+			}
+		} else {
+			t.Class("one-shot")
+		}
+		inFlight := len(s.Pending()) > 0
+		awaiting := false
+		for _, name := range s.names() {
+			c := s.broker.Conf.Cache.Get(name)
+			if c != nil && !c.IsDone() {
+				awaiting = true
+			}
+		}
+		if inFlight || awaiting {
+			t.NonTrivial()
+		}
+		if inFlight {
+			t.Class("stop-with-request-in-flight")
+		}
+		t.Note("@%s STOP graceful=%v (pending requests: %d)", s.clock(), graceful, len(s.Pending()))
+		bound := 30 * time.Second
+		if graceful {
+			t.Class("graceful")
+			c := s.conf
+			bound = 4*(c.ScanDelay+c.PollDelay+time.Duration(c.PollAttempts)*c.PollInterval) + 20*time.Minute
+		} else {
+			t.Class("immediate")
+		}
+		if !s.StopSender(graceful, bound) {
+			s.viol("C16", "stop-does-not-terminate", "%s stop requested at %s; Start had not returned after %v of simulated time (requests served without faults meanwhile); pending requests: %d",
+				map[bool]string{true: "graceful", false: "immediate"}[graceful], s.clock(), bound, len(s.pendingNow()))
+			return
+		}
+		s.observe()
+		t.Note("@%s Start returned", s.clock())
+		// nothing confirmed may be missing from the persisted cache
+		persisted, err := cacheReload(s)
+		if err != nil {
+			s.viol("C16", "cache-unreadable-after-stop", "the queue cache cannot be read after the stop: %v", err)
+			return
+		}
+		for k := range s.positivePolls {
+			parts := strings.SplitN(k, "|", 2)
+			name, hash := parts[0], parts[1]
+			if s.tainted[name] {
+				continue
+			}
+			if v := s.lastVersion(name); v == nil || v.hash != hash {
+				continue
+			}
+			c := persisted.Get(name)
+			_, statErr := os.Stat(filepath.Join(s.srcDir, name))
+			if c == nil {
+				if statErr == nil {
+					s.viol("C16", "confirmed-file-missing-from-cache", "%s#%.6s was confirmed to the sender, but after the stop the persisted cache has no entry for it (file still present)", name, hash)
+				}
+				continue
+			}
+			if c.GetHash() == hash && !c.IsDone() && graceful {
+				s.viol("C16", "confirmation-not-recorded", "%s#%.6s was confirmed to the sender before it exited gracefully, but the persisted queue cache does not mark it done", name, hash)
+			}
+		}
+		if graceful && !p.Faults {
+			// everything the scans found is transmitted and confirmed
+			for _, name := range s.names() {
+				v := s.lastVersion(name)
+				if !s.delivered(name, v.hash) && !s.receiverHoldsValidated(name, v.hash) {
+					s.viol("C16", "graceful-stop-left-work-undone", "after a graceful stop without failures %s#%.6s is neither delivered nor held validated: %s", name, v.hash, s.stuckReport())
+				}
+			}
 		}
 	})
 }
